@@ -218,7 +218,7 @@ def gen_valid(chk):
         for (idx, bit) in enumerate(bg.PRIMARY_FLAGS):
             if bits >> idx & 1:
                 flags |= bit
-        cases.append(('flags', bg.gen_bundle(rng, flags=flags, **safe)))
+        cases.append(('flags', bg.gen_bundle(rng, flags=flags, n_ext=rng.choice([0, 0, 1]), payload_sizes=(0, 1, 5, 24), **safe)))
     # every combination of CRC types over primary / extension / payload
     for combo in itertools.product([0, 1, 2], repeat=3):
         for admin in (False, True):
@@ -242,7 +242,7 @@ def gen_valid(chk):
     # big payloads (BTSD length heads of 3 and 5 octets); the model side is compared through digests (big_suite)
     for size in ([700, 4000] if chk.quick() else [4000, 65535, 65536, 65537]):
         cases.append(('big', bg.gen_bundle(rng, payload_sizes=(size,), admin=False, n_ext=1, **safe)))
-    for _ in range(400 if chk.quick() else 20000):
+    for _ in range(300 if chk.quick() else 20000):
         cases.append(('random', bg.gen_bundle(rng, **safe)))
     return cases
 
@@ -533,13 +533,22 @@ def run_streams(chk, cases, pending, shared):
         raw = bg.encode(spec)
         obs = dict(enc=impl_encode_modes(spec), dec=impl_decode(raw), raw=raw)
         impl.append(obs)
+        # elaborating octet literals dominates the cost of a case: every octet string equal to the independent
+        # encoding is passed as the let-bound [raw], and the decoded bundle as [b] when its fields equal the spec
         (db, dr, obs['dec_kind']) = coq_decoded(obs)
-        given = obs['enc'][0]
-        updated = obs['enc'][1]
-        terms.append('(run_case (%s, %s, (%s, %s), (%s, %s)))' % (
-            bg.coq_bundle(spec), bg.coq_encoded(spec),
-            coq_octets(bytes.fromhex(given)) if not given.startswith('raise:') else '(@nil N)',
-            coq_octets(bytes.fromhex(updated)) if not updated.startswith('raise:') else '(@nil N)', db, dr))
+        raw_hex = raw.hex()
+        plain = bg.strip_views(spec)
+        if obs['dec']['ok'] and obs['dec']['spec'] == plain:
+            db = '[b]'
+        if obs['dec']['ok'] and obs['dec']['reenc'] == raw_hex:
+            dr = 'raw'
+
+        def lit(got):
+            if got.startswith('raise:'):
+                return '(@nil N)'
+            return 'raw' if got == raw_hex else coq_octets(bytes.fromhex(got))
+        terms.append('(let raw := %s in let b := %s in run_case (b, raw, (%s, %s), (%s, %s)))' % (
+            bg.coq_encoded(spec), bg.coq_bundle(spec), lit(obs['enc'][0]), lit(obs['enc'][1]), db, dr))
     shared['impl'] = impl
     tick(chk, 'impl side of %d cases' % len(cases))
     both = yield terms
